@@ -1266,6 +1266,10 @@ impl Drop for Popen {
     // detach().
     fn drop(&mut self) {
         if let (false, &Running { .. }) = (self.detached, &self.child_state) {
+            // Close our end of the child's stdin first.  A child that waits
+            // for EOF on its stdin would otherwise never exit, and the wait
+            // below would hang for as long as we hold the pipe open.
+            self.stdin.take();
             // Should we log error if one occurs during drop()?
             self.wait().ok();
         }
